@@ -7,6 +7,9 @@ import json, os, shutil, subprocess, sys, tempfile
 from concurrent.futures import ThreadPoolExecutor
 V = "/verif"
 args = sys.argv[1:]
+TARGET_ONLY = False
+if args and args[0] == "--target-only":
+    TARGET_ONLY = True; args = args[1:]      # seeded faults: run only the target property's rule (benign changes always get all twenty)
 J = 4
 if args and args[0] == "-j":
     J = int(args[1]); args = args[2:]
@@ -27,7 +30,9 @@ def one(n):
         if pa.returncode != 0:
             return n, None, "patch does not apply: " + pa.stdout[-200:]
         hit = {}
-        for p in props:
+        meta_ = json.load(open(d + "/meta.json")) if os.path.exists(d + "/meta.json") else {}
+        only_ = (meta_.get("property") or "")[:3] if (TARGET_ONLY and meta_.get("kind") != "benign-refactoring") else None
+        for p in ([only_] if only_ in props else props):
             out = "%s/%s.json" % (tmp, p)
             env = dict(os.environ, H8_REPO=scratch, PYTHONHASHSEED="0")
             pr = subprocess.run([sys.executable, V + "/engine/h8lint/cli.py", p, "--tier", "quick", "--json-out", out], env=env, stdout=subprocess.PIPE, stderr=subprocess.STDOUT, text=True)
@@ -58,6 +63,9 @@ with ThreadPoolExecutor(J) as ex:
         flagged = sorted(p for p, (rc, ls) in hit.items() if rc == 1)
         errored = sorted(p for p, (rc, ls) in hit.items() if rc == 2)
         benign = meta.get("kind") == "benign-refactoring"
+        if TARGET_ONLY and not benign and n in results:
+            old_ = results[n]      # keep the cross-check columns of the last full run
+            flagged = sorted(set(flagged) | (set(old_.get("flagged_by", [])) - {target}))
         results[n] = {"property": target, "kind": "benign-refactoring" if benign else "seeded-fault", "flagged_by": flagged, "checker_errors": errored,
                       "caught": (not flagged) if benign else (target in flagged if target else bool(flagged)),
                       "first_report": {p: [l[:220] for l in hit[p][1][:2]] for p in flagged + errored}}
